@@ -96,9 +96,21 @@ C04Next ==
     \/ /\ run[1].pc = "idle" /\ run[2].pc = "idle"
        /\ \E d \in PrepDuties : Deliver(1, d) /\ H([ev |-> "Deliver", run |-> 1, duty |-> d]) /\ UNCHANGED succ
     \/ /\ run[1].pc \in {"idle", "done"} /\ run[2].pc = "idle"
+       /\ ScenMaxLen <= 3
        /\ \E d \in C04Duties :
             /\ {p[2] : p \in attested} \subseteq Range(d.vals)
             /\ Deliver(2, d) /\ H([ev |-> "Deliver", run |-> 2, duty |-> d]) /\ UNCHANGED succ
+    \* larger duties: one random draw (TLC simulation), bound variables so that each is drawn once
+    \/ /\ run[1].pc \in {"idle", "done"} /\ run[2].pc = "idle"
+       /\ ScenMaxLen > 3
+       /\ LET P == {p[2] : p \in attested} IN
+          \E X \in {RandomElement(SUBSET (ScenVals \ P))} :
+          \E S \in {IF P \cup X = {} THEN {RandomElement(ScenVals)} ELSE P \cup X} :
+          \E vs \in {RandomElement({f \in [1..Cardinality(S) -> S] : \A i, j \in DOMAIN f : f[i] = f[j] => i = j})} :
+          \E cs \in {RandomElement([1..Cardinality(S) -> ScenComms])} :
+          \E s \in {RandomElement(ScenSlots)}, j \in {RandomElement(0..4)} :
+            LET d == [slot |-> s, vals |-> vs, comm |-> cs, pos |-> [i \in DOMAIN vs |-> (vs[i] * 3 + j) % 5], sizes |-> Sizes] IN
+            Deliver(2, d) /\ H([ev |-> "Deliver", run |-> 2, duty |-> run'[2].duty]) /\ UNCHANGED succ
     \/ /\ Fetch(1, GoodData(run[1].duty, 1)) /\ H([ev |-> "Fetch", run |-> 1, err |-> FALSE, data |-> GoodData(run[1].duty, 1)]) /\ UNCHANGED succ
     \/ /\ Accounts(1, run[1].claimed) /\ H([ev |-> "Accounts", run |-> 1, err |-> FALSE, accts |-> run[1].claimed]) /\ UNCHANGED succ
     \/ /\ Sign(1, ExpectedReq(run[1]), SignData(run[1]), {}, TRUE) /\ H([ev |-> "Sign", run |-> 1, err |-> FALSE, zero |-> {}]) /\ UNCHANGED succ
